@@ -41,6 +41,7 @@ func main() {
 	debug.SetGCPercent(400)
 	ctx := vh.NewCtx(*prop, *tier, *seed, *driver, *verif)
 	ctx.Replay = *replay
+	ctx.OutPath = *out
 	f(ctx)
 	for _, l := range ctx.Res.KnownHits {
 		fmt.Println(l)
